@@ -63,7 +63,12 @@ func run(e *core.Env) {
 			// ends are always being read: if all goroutines are blocked for good, the proxy has stopped moving
 			// bytes although something is still owed.
 			out = cr.snapshot()
-			rec.Violate("proxy", i, core.Sig("kind", "deadlock", "scenario", c.Scenario), witness(c, out), "case %d: every goroutine is blocked for good: %s", i, dead)
+			sig := []string{"kind", "deadlock", "scenario", c.Scenario}
+			if c.AttemptBody {
+				// the retry followed the body of a refused attempt on the same connection
+				sig = append(sig, "after", "407_to_request_with_body")
+			}
+			rec.Violate("proxy", i, core.Sig(sig...), witness(c, out), "case %d: every goroutine is blocked for good: %s", i, dead)
 			if out != nil {
 				// what did arrive is still held against the prefix rules
 				judge(e, i, c, out, true)
@@ -552,14 +557,8 @@ func depthClass(d int) string {
 	return "17-20"
 }
 
-// debugHook is set by the package's development test only.
-var debugHook func(c *caseSpec, out *outcome)
-
 func judge(e *core.Env, ci int, c *caseSpec, out *outcome, stalled bool) {
 	rec := e.Rec
-	if debugHook != nil {
-		debugHook(c, out)
-	}
 	nviol := 0
 	viol := func(dd diff, where string, kv ...string) {
 		nviol++
@@ -727,6 +726,14 @@ func judge(e *core.Env, ci int, c *caseSpec, out *outcome, stalled bool) {
 			}
 		}
 	}
+	// A refused attempt that carried a body: when the proxy does not consume that body, its bytes become the
+	// beginning of the next request line. Everything after such a request is out of step on both sides
+	// (framing of the answer depends on the method), so it is reported alone.
+	if first := append(append([]*message{}, got...), tail); c.AttemptBody && len(sentReq) > 0 && first[0] != nil && first[0].Method != sentReq[0].Method {
+		viol(d("method_mismatch", "sent "+sentReq[0].Method+" got "+first[0].Method), "request 0 at the origin", "after", "407_to_request_with_body")
+		rec.Class("seq:attempt-body-glued-observed")
+		return
+	}
 	forbidden := false
 	for k, g := range got {
 		if k >= c.M {
@@ -772,7 +779,7 @@ func judge(e *core.Env, ci int, c *caseSpec, out *outcome, stalled bool) {
 			viol(d("body_mismatch", "the part of the body that arrived is not a prefix of the body sent"), fmt.Sprintf("incomplete request %d at the origin", len(got)))
 		}
 	} else if tail != nil && !forbidden {
-		viol(d("forbidden_request_forwarded", fmt.Sprintf("the origin received the beginning of a request beyond the %d that may be forwarded: %s %s", c.M, tail.Method, tail.Target), "reason", c.Term, "partial", "true"), "origin")
+		viol(d("forbidden_request_forwarded", fmt.Sprintf("the origin received the beginning of a request beyond the %d that may be forwarded: %s %s", c.M, tail.Method, tail.Target), "reason", c.Term), "origin")
 	}
 	// --- what the client received: judgement ---
 	if cbad != "" {
@@ -863,7 +870,7 @@ func judge(e *core.Env, ci int, c *caseSpec, out *outcome, stalled bool) {
 			}
 			respMissing = true
 			viol(d("response_missing", fmt.Sprintf("the client received %d complete responses (+%d stray bytes) and then the end of the connection; %d were owed; the first missing one is the %s response to request %d",
-				len(cgot), ctailBytes, required, kind, missing.j), "missing", kind, "last_received", last, "close_indication", cls), "client")
+				len(cgot), ctailBytes, required, kind, missing.j), "last_received", last, "close_indication", cls), "client")
 		} else if ctailBytes > 0 && len(cgot) >= len(want) {
 			viol(d("stray_bytes_to_client", fmt.Sprintf("%d bytes follow the last owed response", ctailBytes)), "client")
 		} else if ctail != nil && len(cgot) < len(want) && endAt < 0 {
